@@ -471,6 +471,8 @@ func monC15(h *Hist, o *TxnObs) {
 	}
 	sigClass := "client-key"
 	switch {
+	case byClient && !keyOfClient:
+		sigClass = "client-sig-foreign-key" // the client's signature over a marker that names another public key
 	case byClient:
 	case signedBy != "":
 		sigClass = "foreign-key-valid-sig" // carries another wallet's public key and verifies under it
@@ -566,15 +568,39 @@ func monC15(h *Hist, o *TxnObs) {
 // ---- C24: free storage ------------------------------------------------------------------------------------------------------------
 
 func monC24(h *Hist, o *TxnObs) {
-	if storageFn(o) != "free_allocation_request" {
+	fn := storageFn(o)
+	model := frModelOf(h)
+	if fn == "add_free_storage_assigner" && o.Outcome == "success" {
+		// registrations the monitor saw applied: name -> public key (the key markers of that assigner must verify under)
+		var in struct {
+			Name      string `json:"name"`
+			PublicKey string `json:"public_key"`
+		}
+		if json.Unmarshal(o.Txn.InputData, &in) == nil {
+			model.Key[in.Name] = in.PublicKey
+		}
+		return
+	}
+	if fn != "free_allocation_request" {
 		return
 	}
 	m, _ := o.Call.Meta["marker"].(map[string]interface{})
 	valid, _ := o.Call.Meta["free_marker_valid"].(bool)
+	wire := frDecode(o.Txn.InputData)
 	h.C("C24", "free_requests_judged")
+	used, ooo := false, false
+	if wire != nil {
+		used, ooo = model.Nonces[wire.Assigner][wire.Nonce], model.outOfOrder(wire.Assigner)
+		if used {
+			h.C("C24", "requests_with_redeemed_nonce_judged")
+			if ooo {
+				h.C("C24", "replays_after_out_of_order_redemption_judged")
+			}
+		}
+	}
 	if r := h.Runs["C24"]; r != nil {
 		r.Eval(1)
-		r.Distinct(fmt.Sprintf("%s|%s|valid=%v", o.Call.Mut, o.Outcome, valid))
+		r.Distinct(fmt.Sprintf("%s|%s|valid=%v|nonce_used=%v|out_of_order=%v", o.Call.Mut, o.Outcome, valid, used, ooo))
 	}
 	if o.Outcome != "success" {
 		return
@@ -582,11 +608,43 @@ func monC24(h *Hist, o *TxnObs) {
 	if !valid {
 		h.V("C24", "invalid-free-marker-accepted:"+o.Call.Mut, fmt.Sprintf("free_allocation_request succeeded with a marker the generator built as invalid (%s): %v", o.Call.Mut, m), o)
 	}
-	// assigner bookkeeping in state: redeemed total within the total limit, nonce recorded once
-	signer := ""
-	if m != nil {
-		signer = fmt.Sprint(m["signer"])
+	// the monitor's own judgement of the marker it decoded from the input
+	if wire == nil {
+		h.V("C24", "undecodable-free-marker-accepted", "free_allocation_request succeeded although its input carries no decodable marker", o)
+	} else {
+		if wire.Recipient != o.Txn.ClientID {
+			h.V("C24", "free-marker-redeemed-by-other-than-recipient", fmt.Sprintf("marker for %s redeemed by %s", h.name(wire.Recipient), h.name(o.Txn.ClientID)), o)
+		}
+		if pub, ok := model.Key[wire.Assigner]; !ok {
+			h.V("C24", "free-marker-of-unregistered-assigner-accepted", fmt.Sprintf("assigner %s was never registered", short(wire.Assigner)), o)
+		} else if known, sigOK := frSignedByKey(h, pub, wire); known && !sigOK {
+			h.V("C24", "free-marker-not-signed-by-assigner-accepted", fmt.Sprintf("marker of assigner %s (nonce %d) does not verify under the assigner's registered key", short(wire.Assigner), wire.Nonce), o)
+		} else if known {
+			h.C("C24", "assigner_signatures_verified")
+		}
+		if used {
+			sig := "marker-nonce-redeemed-twice"
+			h.V("C24", sig, fmt.Sprintf("marker of assigner %s with nonce %d redeemed although that nonce was redeemed before (redemption order so far %v)", short(wire.Assigner), wire.Nonce, model.Order[wire.Assigner]), o)
+		}
+		if model.Nonces[wire.Assigner] == nil {
+			model.Nonces[wire.Assigner] = map[int64]bool{}
+		}
+		if o2 := model.Order[wire.Assigner]; len(o2) > 0 && !used {
+			max := o2[0]
+			for _, n := range o2 {
+				if n > max {
+					max = n
+				}
+			}
+			if wire.Nonce < max {
+				h.C("C24", "redemptions_below_an_earlier_nonce")
+			}
+		}
+		model.Nonces[wire.Assigner][wire.Nonce] = true
+		model.Order[wire.Assigner] = append(model.Order[wire.Assigner], wire.Nonce)
 	}
+	h.C("C24", "redemptions_checked")
+	// assigner bookkeeping in state: redeemed total within the total limit, nonce recorded once
 	preRed := map[string]uint64{}
 	for _, n := range h.NodesOfType(o.Pre, "*storagesc.freeStorageAssigner") {
 		preRed[Str(n.Val, "ClientId")] = U(n.Val, "CurrentRedeemed")
@@ -597,9 +655,11 @@ func monC24(h *Hist, o *TxnObs) {
 		if red <= preRed[Str(n.Val, "ClientId")] {
 			continue
 		}
-		_ = signer
 		if red > tot {
 			h.V("C24", "assigner-total-limit-exceeded", fmt.Sprintf("assigner %s redeemed %d > total limit %d", short(Str(n.Val, "ClientId")), red, tot), o)
+		}
+		if ind := U(n.Val, "IndividualLimit"); red-preRed[Str(n.Val, "ClientId")] > ind {
+			h.V("C24", "grant-above-individual-limit", fmt.Sprintf("assigner %s: grant %d > individual limit %d", short(Str(n.Val, "ClientId")), red-preRed[Str(n.Val, "ClientId")], ind), o)
 		}
 		ns := F(n.Val, "RedeemedNonces")
 		seen := map[int64]bool{}
@@ -612,18 +672,5 @@ func monC24(h *Hist, o *TxnObs) {
 				seen[v] = true
 			}
 		}
-	}
-	// reference per assigner: nonces seen on successful redemptions
-	refs, _ := h.Vars["c24"].(map[string]bool)
-	if refs == nil {
-		refs = map[string]bool{}
-		h.Vars["c24"] = refs
-	}
-	if m != nil {
-		k := fmt.Sprintf("%v|%v", m["signer"], m["nonce"])
-		if refs[k] {
-			h.V("C24", "marker-nonce-redeemed-twice", fmt.Sprintf("marker (assigner, nonce) %s redeemed twice", k), o)
-		}
-		refs[k] = true
 	}
 }
